@@ -8,6 +8,8 @@
 //! Enumerated: the traits of the corpus, the container kind, object / group / cast form.
 
 use crate::corpus::*;
+use crate::corpus2::{LeafRO, L};
+use crate::corpus3::*;
 use cglue::prelude::v1::*;
 use cglue::*;
 use core::pin::Pin;
@@ -364,6 +366,42 @@ nd::harnesses! {
         let v: u64 = nd::any();
         assert!(l.l_cmp(&v) == d2.l_cmp(&v));
         assert!(core::ptr::eq(l.l_ref(), &twin2.val), "returned reference points into the same instance");
+    }
+
+    /// Two borrowed wrapped results of the same associated type held AT THE SAME TIME reach their
+    /// own sub-instances (each method has its own temporary-return slot), in either call order.
+    #[kani::unwind(5)]
+    fn c01_two_borrowed_results_alive() {
+        reset();
+        let a: u32 = nd::any();
+        let b: u32 = nd::any();
+        let k: u32 = nd::any();
+        let order: bool = nd::any();
+        let p = Pair { l: L(Pay::new(a)), r: L(Pay::new(b)), k };
+        let boxed: bool = nd::any();
+        macro_rules! drive { ($obj:ident) => {{
+            if order {
+                let l = $obj.left();
+                let r = $obj.right();
+                assert!(l.ro_val() == a && r.ro_val() == b, "both results stay valid while both are alive");
+                assert!(l.ro_val() == a);
+            } else {
+                let r = $obj.right();
+                let l = $obj.left();
+                assert!(r.ro_val() == b && l.ro_val() == a);
+                assert!(r.ro_val() == b);
+            }
+            assert!($obj.which() == k);
+            let again = $obj.left();
+            assert!(again.ro_val() == a);
+        }}}
+        if boxed {
+            let obj = trait_obj!(p as TwoRefs);
+            drive!(obj);
+        } else {
+            let obj = trait_obj!(&p as TwoRefs);
+            drive!(obj);
+        }
     }
 
     /// Negative twin: claims `add` through the object leaves the value unchanged.
